@@ -90,7 +90,7 @@ def pkvs(kvs):
 def ppat(t):
     k = t[0]
     if k == 'bind': return '(PBind %s)' % pkvs(t[1])
-    if k == 'mono': return '(PMono "%s" %s)' % (t[1], pkvs(t[2]))
+    if k == 'mono': return '(%s "%s" %s)' % ('PMonoA' if len(t) > 3 and t[3] else 'PMono', t[1], pkvs(t[2]))
     if k == 'chain': return '(PChain [%s])' % '; '.join(ppat(x) for x in t[1])
     if k == 'par': return '(PPar [%s])' % '; '.join(ppat(x) for x in t[1])
     if k == 'delta': return '(PDelta %s %s)' % (pval(t[1]), ppat(t[2]))
@@ -369,6 +369,15 @@ def gen_pat(rng, depth, st):
     if depth <= 0 or r < 0.3:
         if rng.random() < 0.2 and not st.get('mono_banned') and not (st['under_dur'] and st['mono_used']):
             st['mono_used'] = True
+            if rng.random() < 0.4:
+                # Pmono(..., articulate=True): held events (sustain >= delta) share a node, the others are plain notes;
+                # rests and short events release the node
+                kv = [x for x in gen_kvs(rng, mono=True, rests=True) if x[0] not in ('legato', 'sustain')]
+                n = max([len(x[1][1]) for x in kv if x[1][0] == 'seq'] + [2])
+                kv.append(['legato', ['seq', [rng.choice([F('3/2'), F(1), F('1/2'), I(2), F('1/4')]) for _ in range(n)]]])
+                if rng.random() < 0.3:
+                    kv.append(['pan', ['seq', [rng.choice([I(0), R(1), F('1/2')]) for _ in range(n)]]]) if not any(x[0] == 'pan' for x in kv) else None
+                return ['mono', rng.choice(['c14a', 'c14b', 'c14c']), kv, True]
             return ['mono', rng.choice(['c14a', 'c14b', 'c14c']), gen_kvs(rng, mono=True)]
         return ['bind', gen_kvs(rng)]
     if r < 0.42:
@@ -420,9 +429,23 @@ def gen_pat(rng, depth, st):
     if rng.random() < 0.4:
         # every constructor argument at non-default values: Pdur(dur, pattern, tolerance, quant); the quant branch is taken
         # by children that END before dur (finite Pbind, long dur)
-        tol = rng.choice([F(Fraction(0.001)), F(0), I(0), F('1/4'), F('1/8'), F('1/2'), I(1)])
+        if rng.random() < 0.35:
+            # an event that ends INSIDE the tolerance window (dur - tolerance, dur): the cut comes one event early
+            import math
+            v, T = rng.choice([(Fraction(1, 4), Fraction(1, 2)), (Fraction(3, 4), Fraction(1, 2)), (Fraction(1, 4), Fraction(1)),
+                               (Fraction(1, 2), Fraction(1)), (Fraction(3, 4), Fraction(1)), (Fraction(3, 4), Fraction(2))])
+            k = rng.randint(1, 3)
+            while (k * v) % T == 0:
+                k += 1
+            dd = math.ceil(k * v / T) * T
+            kv = [x for x in gen_kvs(rng, rests=False, edge=False) if x[0] not in ('dur', 'delta', 'stretch')]
+            kv.append(['dur', ['seq', [F(v)] * (k + rng.randint(1, 3))]])
+            tolv = rng.choice([F(T), I(int(T))]) if T == int(T) else F(T)
+            return ['durq', rng.choice([F(dd), I(int(dd))]) if dd == int(dd) else F(dd), tolv,
+                    rng.choice([None, None, F(1), F(2)]), ['bind', kv]]
+        tol = rng.choice([F(Fraction(0.001)), F(0), I(0), F('1/4'), F('1/8'), F('1/2'), F('1/2'), I(1), I(1), F('3/4'), F(2)])
         quant = rng.choice([None, F(1), I(1), F(2), I(2), F('1/2'), F('1/4'), F('3/2'), F('3/4')])
-        dd = rng.choice([d, F(8), I(16), F('9/2')])
+        dd = rng.choice([d, d, F(2), I(3), F('5/2'), F(8), I(16), F('9/2')])
         if rng.random() < 0.6:
             child = ['bind', gen_kvs(rng, rests=rng.random() < 0.3)]
         else:
@@ -694,6 +717,7 @@ def tables_ok(res):
 
 def count_tree(c, t):
     c.count('pattern:' + t[0])
+    if t[0] == 'mono' and len(t) > 3 and t[3]: c.count('pattern:mono-articulate')
     if t[0] in ('chain', 'par', 'seq'):
         for x in t[1]: count_tree(c, x)
     elif t[0] == 'pn':
@@ -889,6 +913,8 @@ def oracle_pat(case, res):
     txt = json.dumps(case['pat'])
     if '["chain", [["par"' in txt or (('"dur"' in txt or '"durq"' in txt) and '2047/2048' in txt):
         return []      # the reference neither feeds a Ppar one input event per pull nor knows Pdur's tolerance window
+    if ', true]' in txt and '"mono"' in txt:
+        return []      # articulated Pmono is the model's business
     if '"par"' in txt and '"mono"' in txt:
         return []      # the reference does not place the release of a Pmono inside a Ppar
     exp, total = ref.expected_score(case)
